@@ -219,7 +219,22 @@ def project(text):
 # rules for the subset sheXer emits.  Token = {"t": type, "a": str, "b": str}
 #   PREFIX-style keywords and node kinds are WORD tokens; IRIREF: a = the IRI; PNAME_NS: a = prefix;
 #   PNAME_LN: a = prefix, b = local part; STRING: a = text; CARD: a = "{n}"; punctuation: t = the character
-_NAME_CHARS = set("ABCDEFGHIJKLMNOPQRSTUVWXYZabcdefghijklmnopqrstuvwxyz0123456789_.:%-")
+_ASCII_NAME_CHARS = set("ABCDEFGHIJKLMNOPQRSTUVWXYZabcdefghijklmnopqrstuvwxyz0123456789_.:%-")
+# PN_CHARS_BASE beyond ASCII, plus the extra PN_CHARS (middle dot, combining marks, undertie)
+_PN_RANGES = [(0xC0, 0xD6), (0xD8, 0xF6), (0xF8, 0x2FF), (0x370, 0x37D), (0x37F, 0x1FFF), (0x200C, 0x200D), (0x2070, 0x218F),
+              (0x2C00, 0x2FEF), (0x3001, 0xD7FF), (0xF900, 0xFDCF), (0xFDF0, 0xFFFD), (0x10000, 0xEFFFF),
+              (0xB7, 0xB7), (0x300, 0x36F), (0x203F, 0x2040)]
+
+
+class _NameChars(object):
+    def __contains__(self, ch):
+        if ch in _ASCII_NAME_CHARS:
+            return True
+        o = ord(ch)
+        return o > 127 and any(a <= o <= b for a, b in _PN_RANGES)
+
+
+_NAME_CHARS = _NameChars()
 _PUNCT = set("}[];@^~*+?")
 
 
@@ -290,7 +305,7 @@ def lex(text):
             word = text[i:j]
             if ":" in word:
                 pre, loc = word.split(":", 1)
-                if not re.fullmatch(r'(?:[A-Za-z](?:[A-Za-z0-9_.-]*[A-Za-z0-9_-])?)?', pre) or not _local_ok(loc):
+                if not re.fullmatch(r'(?:[A-Za-z\u00c0-\uffff](?:[A-Za-z0-9_.\u00b7-\uffff-]*[A-Za-z0-9_\u00b7-\uffff-])?)?', pre) or not _local_ok(loc):
                     return toks, i
                 toks.append({"t": "PNAME_NS" if loc == "" else "PNAME_LN", "a": pre, "b": loc})
             else:
